@@ -18,6 +18,13 @@ SEEDS = os.path.join(ROOT, 'seeded')
 def run(seed):
     prop = seed.split('_')[0]
     patch = os.path.join(SEEDS, seed, 'patch.diff')
+    try:
+        retired = json.load(open(os.path.join(SEEDS, seed, 'meta.json'))).get('retired')
+    except Exception:
+        retired = None
+    if retired:
+        # a later repair made the code robust against this change: it is no property-breaking change any more
+        return seed, {'property': prop, 'retired': retired}
     d = tempfile.mkdtemp(prefix='pyvc_seed_')
     t0 = time.time()
     try:
@@ -45,13 +52,23 @@ def main():
     with cf.ThreadPoolExecutor(jobs) as ex:
         for seed, res in ex.map(run, seeds):
             out[seed] = res
+            if res.get('retired'):
+                print(f"{seed:8s} RETIRED {res['retired'][:120]}", flush=True)
+                continue
             print(f"{seed:8s} " + (f"exit {res['exit']} violations {res['violations']:3d} (native replay {res['replayed_natively']}) "
                                    f"{res['wall_s']}s  {res['first'][:1]}" if res['applies'] else f"PATCH DOES NOT APPLY {res['detail']}"), flush=True)
-    if not only:
-        json.dump(out, open(os.path.join(SEEDS, 'MATRIX.json'), 'w'), indent=1)
-    missed = [s for s, r in out.items() if r.get('applies') and r['exit'] != 1]
-    print('detected', sum(1 for r in out.values() if r.get('exit') == 1), 'of', len(out), 'missed:', missed,
-          'not applicable to the current tree:', [s for s, r in out.items() if not r.get('applies')])
+    mpath = os.path.join(SEEDS, 'MATRIX.json')
+    if only and os.path.exists(mpath):
+        # a partial run refreshes its own rows of the last full matrix
+        full = json.load(open(mpath))
+        full.update(out)
+        out = dict(sorted(full.items()))
+    json.dump(out, open(mpath, 'w'), indent=1)
+    live = {s: r for s, r in out.items() if not r.get('retired')}
+    missed = [s for s, r in live.items() if r.get('applies') and r['exit'] != 1]
+    print('detected', sum(1 for r in live.values() if r.get('exit') == 1), 'of', len(live), 'missed:', missed,
+          'not applicable to the current tree:', [s for s, r in live.items() if not r.get('applies')],
+          'retired:', [s for s, r in out.items() if r.get('retired')])
 
 
 main()
